@@ -21,8 +21,8 @@ SEEDED = os.path.join(ROOT, "seeded")
 REPO = "/repo"
 
 
-def sh(cmd, cwd=None, timeout=3600):
-    r = subprocess.run(cmd, cwd=cwd, stdout=subprocess.PIPE, stderr=subprocess.STDOUT, timeout=timeout)
+def sh(cmd, cwd=None, timeout=3600, env=None):
+    r = subprocess.run(cmd, cwd=cwd, stdout=subprocess.PIPE, stderr=subprocess.STDOUT, timeout=timeout, env=env)
     return r.returncode, r.stdout.decode(errors="replace")
 
 
@@ -70,32 +70,47 @@ def verify(src, name, prop, wt):
         dst = os.path.join(SEEDED, name)
         os.makedirs(dst, exist_ok=True)
         for f in ("patch.diff", "demo.rs", "README.md"):
-            if os.path.exists(os.path.join(src, f)):
+            if os.path.exists(os.path.join(src, f)) and os.path.abspath(src) != os.path.abspath(dst):
                 shutil.copy(os.path.join(src, f), os.path.join(dst, f))
+        keep = {}
+        if os.path.exists(os.path.join(dst, "meta.json")):
+            old_meta = json.load(open(os.path.join(dst, "meta.json")))
+            keep = {k: old_meta[k] for k in ("what", "needs", "detected_by", "rebased") if k in old_meta}
         meta = {"name": name, "breaks": prop, "verified": out,
                 "what_i_ran": "in a scratch worktree at the recorded repo_head: demo on the clean tree (pass), `git apply patch.diff`, "
                               "`cargo test --workspace --offline` (pass), demo with the change (fail)",
                 "needs": "see README.md", "checks": {}}
+        meta.update(keep)
         json.dump(meta, open(os.path.join(dst, "meta.json"), "w"), indent=1)
     return ok
 
 
 def run(name, checks):
+    """With SEED_WORKTREE=<dir> the change is applied to that scratch worktree of /repo (brought to /repo's
+    HEAD first) and the checks run with VERIF_REPO=<dir>: /repo itself is not touched."""
     dst = os.path.join(SEEDED, name)
     meta = json.load(open(os.path.join(dst, "meta.json")))
     checks = checks or [meta["breaks"]]
-    rc, log = sh(["git", "-C", REPO, "status", "--porcelain"])
+    tree = os.environ.get("SEED_WORKTREE", REPO)
+    env = dict(os.environ)
+    if tree != REPO:
+        head = subprocess.check_output(["git", "-C", REPO, "rev-parse", "HEAD"]).decode().strip()
+        sh(["git", "-C", tree, "checkout", "-q", "--detach", head])
+        sh(["git", "-C", tree, "checkout", "--", "."])
+        shutil.copy(os.path.join(REPO, "Cargo.lock"), os.path.join(tree, "Cargo.lock"))
+        env["VERIF_REPO"] = tree
+    rc, log = sh(["git", "-C", tree, "status", "--porcelain", "--untracked-files=no"])
     if log.strip():
-        print("refusing: /repo has uncommitted changes:\n" + log)
+        print("refusing: %s has uncommitted changes:\n" % tree + log)
         return 2
-    rc, log = sh(["git", "-C", REPO, "apply", os.path.join(dst, "patch.diff")])
+    rc, log = sh(["git", "-C", tree, "apply", os.path.join(dst, "patch.diff")])
     if rc != 0:
-        print("patch does not apply to /repo HEAD:\n" + log)
+        print("patch does not apply to HEAD:\n" + log)
         return 2
     try:
         for c in checks:
             t0 = time.time()
-            rc, log = sh([os.path.join(ROOT, "check"), c, "--tier", "quick"], cwd=ROOT, timeout=7200)
+            rc, log = sh([os.path.join(ROOT, "check"), c, "--tier", "quick"], cwd=ROOT, timeout=7200, env=env)
             viol = [l for l in log.splitlines() if l.startswith("VIOLATION")]
             meta.setdefault("checks", {})[c] = {"exit": rc, "violations": len(viol), "first": viol[0][:400] if viol else None,
                                                "wall_s": round(time.time() - t0, 1)}
@@ -103,9 +118,9 @@ def run(name, checks):
             if rc == 2:
                 print(log[-1500:])
     finally:
-        sh(["git", "-C", REPO, "checkout", "--", "."])
+        sh(["git", "-C", tree, "checkout", "--", "."])
         # regenerated automata caches may be left behind by a grammar change
-        sh(["git", "-C", REPO, "clean", "-fdq", "crates/core/automata"])
+        sh(["git", "-C", tree, "clean", "-fdq", "crates/core/automata"])
     json.dump(meta, open(os.path.join(dst, "meta.json"), "w"), indent=1)
     return 0
 
